@@ -51,7 +51,7 @@ Hows       == {"running", "ok", "failed", "crashed"}
 PCs        == {"mkdtemp", "open", "block", "blockclosed", "close", "commit", "rename", "rmtree",
                "h_unlink", "e_close", "e_rmtree", "done"}
 
-Cfg(n, c, cl, w) == [name |-> n, commit |-> c, cleanup |-> cl, wunlink |-> w]
+Cfg(n, c, cl, w) == [name |-> n, commit |-> c, cleanup |-> cl, wunlink |-> w, closeerr |-> "raise"]
 
 (* the transcribed current code, one configuration per way atomic_write is used *)
 CfgSeqFmt == Cfg("seqfmt", "replace", "always", FALSE)   \* format/alignment.save_to_filename (closes the file inside the block)
@@ -67,7 +67,13 @@ HistoricConfigs == {HistSeqFmt, HistWith, HistTable}
 (* partial repairs, to show which change removes which counterexample *)
 CfgReplaceOnly == Cfg("replace_only", "replace", "exit_only", FALSE)
 CfgGuardOnly   == Cfg("guard_only", "unlink_rename", "always", FALSE)
-AllConfigs == CurrentConfigs \cup HistoricConfigs \cup {CfgReplaceOnly, CfgGuardOnly}
+(* a close() of the staged file that fails (the buffered data cannot be flushed: ENOSPC, EFBIG, EIO) must *)
+(* behave like a failure of the body.  This configuration swallows the error in __exit__ and commits: the *)
+(* staged file is incomplete (tmp = Partial) when it is moved over the destination.  Atomic rejects it.    *)
+CfgSwallowClose == [Cfg("swallow_close", "replace", "always", FALSE) EXCEPT !.closeerr = "swallow"]
+(* every configuration below violates Atomic; MC_AtomicWrite_cx.cfg checks that each one is rejected *)
+RejectedConfigs == HistoricConfigs \cup {CfgReplaceOnly, CfgGuardOnly, CfgSwallowClose}
+AllConfigs == CurrentConfigs \cup RejectedConfigs
 
 TypeOK == /\ cfg \in AllConfigs
           /\ pre \in {"absent", "Old"}
@@ -77,6 +83,7 @@ TypeOK == /\ cfg \in AllConfigs
           /\ how \in Hows
           /\ fcall \in Calls \cup {"none"}
           /\ exc \in BOOLEAN
+          /\ cfg.closeerr \in {"raise", "swallow"}
 
 ------------------------------------------------------------------------------
 (* THE PROPERTY.  p = destination before the call, h = how the call ended,    *)
@@ -180,8 +187,11 @@ FaultT(c) ==
     /\ CASE c = "mkdtemp"  -> Propagate /\ UNCHANGED tmp
          [] c = "open_tmp" -> (IF cfg.cleanup = "always" THEN ToCleanup ELSE Propagate) /\ UNCHANGED tmp
          [] pc = "block"   -> EnterHandler /\ UNCHANGED tmp                  \* write / close inside the block
-         [] pc \in {"close", "e_close"} ->
-                (IF cfg.cleanup = "always" THEN ToCleanup ELSE Propagate) /\ UNCHANGED tmp
+         [] pc \in {"close", "e_close"} ->       \* CloseFails: close() of the staged file in __exit__ raises
+                /\ UNCHANGED tmp                  \* the staged content stays incomplete
+                /\ IF cfg.closeerr = "swallow"
+                     THEN pc' = (IF pc = "close" THEN "commit" ELSE "e_rmtree") /\ UNCHANGED <<how, exc>>
+                     ELSE IF cfg.cleanup = "always" THEN ToCleanup ELSE Propagate
          [] pc = "commit" /\ c = "unlink_dest" ->
                 /\ UNCHANGED tmp
                 /\ IF cfg.cleanup = "always" THEN ToCleanup
@@ -237,6 +247,11 @@ FairSpec == Spec /\ WF_vars(Mkdtemp \/ OpenTmp \/ BlockEnd \/ Close \/ UnlinkDes
                               \/ HUnlink \/ EClose \/ ERmtree)
 
 (* without any Crash / Fault / FormatterRaises the write succeeds *)
+(* the close step has its own failure outcome: a write whose staged file could not be closed never reports *)
+(* success and never touches the destination (it behaves like a failure of the body)                        *)
+CloseFails == Fault("close")
+CloseFailureIsAFailure == (fcall = "close" /\ pc = "done") => (how \in {"failed", "crashed"} /\ dest = pre)
+
 HappyPathSucceeds == [](pc = "done" /\ fcall = "none" /\ how # "crashed" /\ ~exc => how = "ok")
 
 ------------------------------------------------------------------------------
